@@ -35,6 +35,10 @@ def gen_c10(rng, idx, tier, faults):
         # statement about float32; exact rescaling keeps the spectrum away from the absolute cut
         xs["cast"] = "float32"
         xs["scale_pow2"] = rng.choice([-7, -6, -5, -4, 0])
+    if "cast" not in xs and rng.random() < 0.12:
+        # badly scaled data: the whole matrix rescaled exactly by a power of two (the numerical
+        # rank is relative to the largest singular value, so it must not change)
+        xs["scale_pow2"] = rng.choice([-30, -20, -10, 7, 14, 20, 30])
     if kind == "lattice" and "cast" not in xs and rng.random() < 0.35:
         xs["cast"] = "int64"  # integer-valued features in the caller's integer dtype
     p = rng.randint(1, 3)
@@ -494,13 +498,17 @@ class RidgeWorld:
         epsX = float(np.finfo(X.dtype).eps) if X.dtype.kind == "f" else EPS
         f1, f2 = (np.flatnonzero(f) if np.asarray(f).dtype == bool else np.asarray(f) for f in (f1, f2))
         ref = ref_ridge2fold(X, y, alphas, p["alpha_type"], p["regularization_method"], p["scoring"], f1, f2, eps=epsX)
-        rt = ref["rank_tol"]
+        rt = ref["rank_tol"]  # relative: times the largest singular value of each matrix
+
+        def cut(sv):
+            return rt * (float(sv.max()) if sv.size else 0.0)
+
         X64 = np.asarray(X, dtype=float)
         svs = [np.linalg.svd(M, compute_uv=False) for M in (X64[f1], X64[f2], X64)]
         svs_native = svs if X.dtype == np.float64 else svs + [
             np.linalg.svd(M, compute_uv=False).astype(float) for M in (X[f1], X[f2], X) if M.dtype.kind == "f"
         ]
-        if any(np.any((s > rt / 3.0) & (s < rt * 3.0)) for s in svs_native):
+        if any(np.any((s > cut(s) / 3.0) & (s < cut(s) * 3.0)) for s in svs_native):
             self.count("out_of_domain_near_rank_cut")
             return
         if epsX != EPS:
@@ -509,7 +517,7 @@ class RidgeWorld:
             self.count("out_of_domain_empty_fold")
             return
         smax = max(float(s.max()) for s in svs)
-        kept_min = min(float(s[s > rt].min()) if np.any(s > rt) else 1.0 for s in svs)
+        kept_min = min(float(s[s > cut(s)].min()) if np.any(s > cut(s)) else 1.0 for s in svs)
         cond = smax / kept_min
         yscale = float(np.max(np.abs(y))) if np.size(y) else 1.0
         # ---- per-alpha CV values
@@ -539,7 +547,7 @@ class RidgeWorld:
                     self.stats["probes"]["cutoff_alpha_exactly_at_a_singular_value_judged"] += 1
                     continue
                 for s in svs:
-                    if np.any((s > rt) & (np.abs(s - a) <= max(1e-9, 100 * epsX if epsX != EPS else 0.0) * smax)):
+                    if np.any((s > cut(s)) & (np.abs(s - a) <= max(1e-9, 100 * epsX if epsX != EPS else 0.0) * smax)):
                         amb[i] = True
         sc_scale = max(1.0, yscale**2 if p["scoring"] in (None, "neg_mean_squared_error") else yscale)
         if p["scoring"] == "r2":
@@ -586,7 +594,7 @@ class RidgeWorld:
         # ---- final coefficients for the alpha the implementation chose
         i0 = idxs[0]
         if p["regularization_method"] == "cutoff" and not all(exact[i] for i in idxs) and any(
-            np.any((svs[2] > rt) & (np.abs(svs[2] - ref["scaled"][i]) <= max(1e-9, 100 * epsX if epsX != EPS else 0.0) * smax)) for i in idxs
+            np.any((svs[2] > cut(svs[2])) & (np.abs(svs[2] - ref["scaled"][i]) <= max(1e-9, 100 * epsX if epsX != EPS else 0.0) * smax)) for i in idxs
         ):
             self.count("skip_coef_alpha_at_singular_value")
         else:
@@ -604,13 +612,13 @@ class RidgeWorld:
                     "coef_wrong",
                     f"coef_ differs from the regularised full-data solution in the numerical-rank subspace by {d:.3g} "
                     f"(|coef| ref {cn:.3g}, impl {float(np.max(np.abs(coef))) if np.all(np.isfinite(coef)) else 'non-finite'}, tol {ctol:.3g}); alpha_={alpha_} | {desc}",
-                    rank_deficient=bool(np.any(svs[2] <= rt)),
+                    rank_deficient=bool(np.any(svs[2] <= cut(svs[2]))),
                     alpha_zero=bool(ref["scaled"][i0] == 0.0),
                     method=p["regularization_method"],
                 )
                 return
             self.count("coef_checked")
-            if np.any(svs[2] <= rt):
+            if np.any(svs[2] <= cut(svs[2])):
                 self.stats["probes"]["rank_deficient_final_solution_checked"] += 1
                 if ref["scaled"][i0] <= 1e-10 * smax**2:
                     self.stats["probes"]["rank_deficient_with_tiny_alpha_chosen"] += 1
